@@ -263,7 +263,12 @@ func TestReplayWire(t *testing.T) {
 	embs := wireEmbeddings()
 	hops := map[string]int{}
 	outcomes := map[string]int{}
-	altered := 0
+	owsTrimmed := 0
+	// the Sig of open finding F11; VERIF_C20_OWS_SIG overrides it in scratch runs that exercise the unmatched path
+	owsSig := "wire:http-ows-trim"
+	if v := envFor("VERIF_C20_OWS_SIG", ""); v != "" {
+		owsSig = v
+	}
 	err = abs.ReadNDJSON(in, func(line []byte) error {
 		var b propBehaviour
 		if err := json.Unmarshal(line, &b); err != nil {
@@ -319,9 +324,19 @@ func TestReplayWire(t *testing.T) {
 						got := wirePost(e, x.o)
 						outcomes[x.o.Class]++
 						if !samePost(got, st.Post) {
+							sig := fmt.Sprintf("wire:%s via %s want=%s/%s got=%s/%s", st.A, x.via, st.Post.At, st.Post.Err, got.At, got.Err)
+							// open finding F11: the real HTTP stack delivers the id without its outer SP / HTAB.
+							// Only that exact alteration on an HTTP wire hop gets this Sig; any other difference keeps its own.
+							if (st.A == "HTTPWire" || st.A == "HTTPWireIn") && st.Post.At == "ctx" && x.o.Class == "delivered" {
+								want := e.str(st.Post.Ctx)
+								if x.o.ID != want && x.o.ID == strings.Trim(want, " \t") {
+									sig = owsSig + " " + st.A
+									owsTrimmed++
+								}
+							}
 							res.Mismatch(abs.Mismatch{
-								Sig:  fmt.Sprintf("wire:%s via %s want=%s/%s got=%s/%s", st.A, x.via, st.Post.At, st.Post.Err, got.At, got.Err),
-								Case: map[string]any{"behaviour": b, "hop": i + 1, "embedding": e.name},
+								Sig:  sig,
+								Case: map[string]any{"behaviour": b, "hop": i + 1, "embedding": e.name, "ids": map[string][]int{"1": s2b(e.ids[1]), "5": s2b(e.ids[5])}},
 								Got:  map[string]any{"post": got, "delivered_bytes": s2b(x.o.ID), "note": x.o.Note}, Want: st.Post,
 							})
 						}
@@ -331,14 +346,7 @@ func TestReplayWire(t *testing.T) {
 						return
 					}
 					// continue with what the specification says was delivered
-					prev := -1
-					if ctx != nil {
-						if s, err := user.ExtractOrgID(ctx); err == nil {
-							prev = e.inverse(s)
-						}
-					}
-					if prev >= 0 && prev != st.Post.Ctx {
-						altered++
+					if st.Present || len(st.Pre) > 0 {
 						nontrivial = true
 					}
 					ctx = user.InjectOrgID(context.Background(), e.str(st.Post.Ctx))
@@ -361,6 +369,6 @@ func TestReplayWire(t *testing.T) {
 	}
 	res.AddExtra("wire_hops_by_action", hops)
 	res.AddExtra("wire_outcomes", outcomes)
-	res.AddExtra("wire_hops_delivering_an_altered_id", altered)
+	res.AddExtra("wire_http_hops_delivering_a_trimmed_id", owsTrimmed)
 	writeResult(t, res, "wire_replay")
 }
